@@ -27,6 +27,12 @@ def 2 for performer 0 { if ($V == -0x0A) { op(1.50, "x'"); } switch ($W) { case 
 ]
 
 
+MULTILINE_SEEDS = [
+    'def 0 { msg("""one\ntwo"""); msg2(\'\'\'a\n    b\n    c\'\'\', 1); end; }',
+    'def 0 {\n    talk({english="""\n        Hello\n        World\n        """, german="x"});\n    message_SwitchTalk ($V) {\n        case 1: """l1\nl2"""\n        default: "d"\n    }\n    return;\n}',
+]
+
+
 def tokenize(src: str) -> list[dict]:
     from antlr4 import InputStream
     from explorerscript.antlr.ExplorerScriptLexer import ExplorerScriptLexer
@@ -124,26 +130,49 @@ def run_chain(case: dict) -> dict:
     base_text = render(toks, base_seps, {})
     base = drive.compile_text(base_text)
     orig = drive.compile_text(case["src"])
-    rec = {"toks": [{"k": t["k"], "f": t["f"]} for t in toks], "baseStatus": base["status"], "baseDigest": digest(base), "steps": [], "src": case["src"],
+    rec = {"hasAttribute": False, "toks": [{"k": t["k"], "f": t["f"]} for t in toks], "baseStatus": base["status"], "baseDigest": digest(base), "steps": [], "src": case["src"],
            "origDigest": digest(orig)}
     if base["status"] != "ok":
         return rec
     # the canonical one-space spelling is itself a re-spelling of the seed: step 0
     seps, alts = list(base_seps), {}
+    crlf_all = False
     texts = []
     for s in case["steps"]:
         if not case.get("cumulative", True):
             seps, alts = list(base_seps), {}
+            crlf_all = False
         if s["a"] == "SetSeparator":
             seps[s["i"] - 1] = s["w"]
+        elif s["a"] == "FileLineEndings":
+            crlf_all = True
         else:
             alts[s["i"] - 1] = (s["a"], s.get("w", ""))
         text = render(toks, seps, alts)
+        if crlf_all:
+            text = text.replace("\r\n", "\n").replace("\n", "\r\n")
         c = drive.compile_text(text)
         rec["steps"].append({"a": s["a"], "i": s["i"], "w": s.get("w", ""), "status": c["status"], "digest": digest(c), "err": c["err"]})
         texts.append(text)
     rec["texts"] = texts[-3:]
     rec["origAgrees"] = rec["origDigest"] == rec["baseDigest"]
+    return rec
+
+
+ATTR_BODIES = ["def 0 {\n    a(1);\n    @l;\n    Jump(@l);\n}\n", "coro C {\n    x('s');\n    Return();\n}\ndef 1 for actor A {\n    Hold();\n}\n"]
+ATTR_W = {"trailing-spaces": "//?: is-ssb-script: true   \n", "trailing-tab": "//?: is-ssb-script: true\t\n", "spaces-after-colon": "//?:   is-ssb-script:    true\n",
+          "crlf-line": "//?: is-ssb-script: true\r\n", "blank-line-after": "//?: is-ssb-script: true\n\n"}
+
+
+def run_attr_case(body: str) -> dict:
+    """a source with the `is-ssb-script` attribute line: spacing variants of that line must not change what is compiled"""
+    base = drive.compile_text("//?: is-ssb-script: true\n" + body)
+    rec = {"hasAttribute": True, "toks": [], "baseStatus": base["status"], "baseDigest": digest(base), "steps": [], "src": "//?: is-ssb-script: true\n" + body,
+           "origDigest": digest(base), "origAgrees": True, "texts": []}
+    for w, line in ATTR_W.items():
+        c = drive.compile_text(line + body)
+        rec["steps"].append({"a": "AttributeSpacing", "i": 0, "w": w, "status": c["status"], "digest": digest(c), "err": c["err"]})
+        rec["texts"].append(line + body)
     return rec
 
 
@@ -188,7 +217,7 @@ def validate(rep, recs, tag):
     for k in range(0, len(recs), B):
         path = os.path.join(common.scratch(), f"c16-{tag}-{k}.json")
         with open(path, "w") as fh:
-            json.dump([{"toks": r["toks"], "baseStatus": r["baseStatus"], "baseDigest": r["baseDigest"],
+            json.dump([{"hasAttribute": bool(r.get("hasAttribute")), "toks": r["toks"], "baseStatus": r["baseStatus"], "baseDigest": r["baseDigest"],
                         "steps": [{x: s[x] for x in ("a", "i", "w", "status", "digest")} for s in r["steps"]]} for r in recs[k:k + B]], fh)
         res = common.run_tlc("Respell", "Respell.cfg", {"CASES_FILE": path})
         os.unlink(path)
@@ -207,7 +236,9 @@ def main() -> int:
     seeds = enum_exps.c01_family(False)[:: (60 if not thorough else 10)]
     seeds += [gen_exps.random_program(rng, 3) for _ in range(150 if not thorough else 1500)]
     seeds += [t["files"]["main.exps"] for t in (gen_macros.dag_program(3, {(0, 1), (1, 2)}, (2, 0, 1), rng, rich=True, nparams=[1, 2, 0]) for _ in range(30 if not thorough else 1000))]
-    cases = [{"src": s, "steps": plan(rng, s, rng.randint(3, 8)), "cumulative": True} for s in seeds]
+    cases = [{"src": s, "steps": plan(rng, s, rng.randint(3, 8)) + ([{"a": "FileLineEndings", "i": 0, "w": "crlf"}] if k % 2 == 0 else []), "cumulative": True}
+             for k, s in enumerate(seeds)]
+    cases += [{"src": s, "steps": [{"a": "FileLineEndings", "i": 0, "w": "crlf"}], "cumulative": False} for s in LITERAL_SEEDS + MULTILINE_SEEDS]
     # exhaustive layer: every separator at every token boundary of a few seeds (each from the base spelling)
     for s in seeds[:3] + seeds[-2:] if not thorough else seeds[:60]:
         toks = tokenize(s)
@@ -243,6 +274,7 @@ def main() -> int:
         for j in range(0, len(steps), 40):
             cases.append({"src": s, "steps": steps[j:j + 40], "cumulative": False})
     recs = pmap(run_chain, cases, limit=60.0, chunk=4)
+    recs += pmap(run_attr_case, ATTR_BODIES, limit=60.0, chunk=1)
     for r in recs:
         if r.get("_error") or r.get("_timeout"):
             raise common.MachineryError("harness failure: " + str(r)[-500:])
